@@ -47,6 +47,28 @@ Theorem C05_order : forall n ls s, prun no_hoarding (p_init n) ls = Some s -> si
 Proof. exact conservation. Qed.
 Print Assumptions C05_order.
 
+(* "within bounded time", as far as the pipeline's own steps go: from any state whatever, every run of internal steps
+   (no new output of the backend) has exactly as many steps as the distance `work` it covers - each step brings one chunk
+   one stage nearer to the proxy - so it is at most (chunks held) x (number of stages) long; with C05_no_retention: after at
+   most that many hand-overs every chunk flushed so far is with the proxy.  How long a hand-over takes is not modelled. *)
+Theorem C05_bounded_moves : forall s ls s', all_moves ls = true -> prun no_hoarding s ls = Some s' ->
+  List.length ls + work (stages s') = work (stages s) /\
+  work (stages s) <= List.length (List.concat (stages s)) * List.length (stages s).
+Proof. intros s ls s' Ha Hr. split; [exact (moves_work ls s s' Ha Hr) | exact (work_le (stages s))]. Qed.
+Print Assumptions C05_bounded_moves.
+
+(* non-vacuity: two chunks under way in three stages, five hand-overs deliver both *)
+Example C05_bounded_moves_example :
+  match prun no_hoarding (p_init 3) [Produce 7; Move 0; Produce 8] with
+  | Some s => work (stages s) = 5 /\
+      match prun no_hoarding s [Move 1; Move 2; Move 0; Move 1; Move 2] with
+      | Some s' => work (stages s') = 0 /\ sink s' = [7; 8] /\ quiescent no_hoarding s' = true
+      | None => False
+      end
+  | None => False
+  end.
+Proof. vm_compute. repeat split; reflexivity. Qed.
+
 (* sharpness: a stage that keeps the body until the response ends (a buffered upload) wedges a
    lock-step backend at the first chunk: quiescent, the chunk written, nothing observed *)
 Example C05_sharp_hoarding_stage :
